@@ -118,7 +118,7 @@ func genEntries(rt *rapid.T, l string, s Stream, metricOnly, logOnly bool, big b
 	return s
 }
 
-var protos = []string{"loki-json", "loki-json-entries", "loki-proto", "prom-rw", "influx", "loki-json", "prom-rw", "datadog-logs", "datadog-metrics", "otlp-logs", "zipkin", "zipkin-nd", "otlp-traces", "pprof", "pprof-multipart"}
+var protos = []string{"loki-json", "loki-json-entries", "loki-proto", "prom-rw", "influx", "loki-json", "prom-rw", "datadog-logs", "datadog-metrics", "otlp-logs", "zipkin", "zipkin-nd", "otlp-traces", "pprof", "pprof-multipart", "elastic-bulk", "elastic-doc"}
 
 var hostileRecipes = []string{"truncate", "bitflip", "random", "empty", "badsnappy", "gzip-header", "snappy-header", "bad-encoding", "deepnest", "wrong-content-type", "wrong-route", "short-id", "params", "params"}
 
